@@ -43,14 +43,15 @@ where
     };
     let outcome = tokio::select! {
         biased;
-        _ = notify.notified() => Some(SessionOutcome::Killed),
+        _ = notify.notified() => if world.hung_flag.get() { Some(SessionOutcome::Hung("clients (busy-waiting)".into())) } else { Some(SessionOutcome::Killed) },
         _ = all => None,
         _ = tokio::time::sleep(Duration::from_secs(4 * 3600)) => Some(SessionOutcome::Hung("clients".into())),
     };
     match &outcome {
         Some(SessionOutcome::Hung(_)) => {
             let pending = handles.iter().filter(|h| !h.is_finished()).count();
-            ctx.violate(&["C08"], "deadlock", "client operations never completed although nothing was runnable (watchdog after 4 simulated hours)", format!("session {} pending clients {}", si, pending));
+            let how = if world.hung_flag.get() { "some tasks busy-wait while nothing makes progress (4 million polls without an I/O event or a completed operation)" } else { "nothing was runnable for 4 simulated hours" };
+            ctx.violate(&["C08"], "deadlock", "client operations never complete: the storage is deadlocked", format!("session {} pending clients {} of {}; {}; channel capacity {}", si, pending, n, how, plan.sched.channel_cap));
             for h in handles.iter() {
                 h.abort();
             }
